@@ -593,9 +593,9 @@ def oracle_ionq_serializer(r):
         if all(_must_accept(c, r["native"], atol) for c in r["circs"]) and "too long for IonQ API" not in str(err):
             raise Violation(f"circuit inside the documented IonQ vocabulary was rejected: {type(err).__name__}: {err}")
         raise Reject(f"documented rejection: {type(err).__name__}")
+    _check_invert_and_repeats(r)
     worst, chunks = _check_program(r, built, atol, prog)
     _check_passthrough(r, prog)
-    _check_invert_and_repeats(r)
     return _ionq_labels(r, built, chunks)
 
 
@@ -610,10 +610,6 @@ def _check_invert_and_repeats(r):
 
 UNSUPPORTED = ["gate", "gate", "gate", "oddexp", "oddexp", "oddexp", "grid", "named", "negative", "midmeas", "param", "sepkey", "empty", "circuitop",
                "classical", "mixed_batch", "longkeys"]
-
-_IONQ_VOCAB = {"XPow", "YPow", "ZPow", "Rx", "Ry", "Rz", "XXPow", "YYPow", "ZZPow", "MS", "PauliStringPhasor", "GPI", "GPI2",
-               "IonqMS", "IonqZZ", "HPow", "CXPow", "SwapPow"}
-
 
 @st.composite
 def _reject_case(draw):
@@ -655,11 +651,9 @@ def oracle_ionq_rejects(r):
         qs = [cirq.LineQubit(i) for i in r["w"][:k]]
         if len(qs) < k:
             raise Reject("not enough wires")
-        busy = {q for op in meas_part for q in op.qubits}
         planted = cirq.Circuit(gates_part, g.on(*qs), [op for op in meas_part if not (set(op.qubits) & set(qs))])
         must_raise = False
         extra_exc = (NotSupportedPauliexpParameters,)
-        del busy
     elif kind in ("grid", "named", "negative"):
         q = {"grid": cirq.GridQubit(0, 1), "named": cirq.NamedQubit("a"), "negative": cirq.LineQubit(-1)}[kind]
         planted = cirq.Circuit(gates_part, cirq.X(q) ** 0.5, meas_part)
